@@ -64,9 +64,11 @@ def record_history(sdk, scenario, seed, g, n, workdir, race=True):
     env = dict(os.environ, GORACE="exitcode=0 halt_on_error=0")
     try:
         p = subprocess.run([os.path.join(BUILD, "conc-race" if race else "conc"), "-sdk", sdk, "-scenario", scenario, "-seed", str(seed), "-g", str(g),
-                            "-n", str(n), "-out", out], capture_output=True, text=True, timeout=120, env=env)
+                            "-n", str(n), "-out", out], capture_output=True, text=True, timeout=900, env=env)
     except subprocess.TimeoutExpired:
-        return dict(path=None, outcome="timeout", races=0, stderr="timed out (deadlock?)")
+        # a call of the real client that blocks for good is detected INSIDE the recorder (goroutine state) and ends the run normally;
+        # a recorder that is still running after 15 minutes says something about the machine, not about minidyn
+        raise Inconclusive("the concurrency recorder (%s %s seed %d) did not finish within 900 s" % (sdk, scenario, seed))
     races = p.stderr.count("WARNING: DATA RACE")
     if p.returncode != 0 or not os.path.exists(out):
         return dict(path=None, outcome="crash", races=races, stderr=p.stderr[-3000:])
